@@ -119,6 +119,9 @@ class SecondSlotCounter:
         """
         self._maxage = maxage
         self._slots: dict[int, int] = {}
+        # counters are incremented by connection and application threads
+        # and read by the statistics thread
+        self._lock = threading.Lock()
 
     def add_count(self, count: int):
         """Increment counter by the given amount.
@@ -126,16 +129,17 @@ class SecondSlotCounter:
         The given amount is added to "now", at 1-second precision. Every new
         second is initialised as zero.
         """
-        slot = int(time.time())
-        self._slots.setdefault(slot, 0)
-        self._slots[slot] += count
+        with self._lock:
+            slot = int(time.time())
+            self._slots.setdefault(slot, 0)
+            self._slots[slot] += count
 
-        cutoff = slot - self._maxage
-        oldest_slot = next(iter(self._slots))
-        while len(self._slots) > 0 and oldest_slot < cutoff:
-            self._slots.pop(oldest_slot)
-            if len(self._slots) > 0:
-                oldest_slot = next(iter(self._slots))
+            cutoff = slot - self._maxage
+            oldest_slot = next(iter(self._slots))
+            while len(self._slots) > 0 and oldest_slot < cutoff:
+                self._slots.pop(oldest_slot)
+                if len(self._slots) > 0:
+                    oldest_slot = next(iter(self._slots))
 
     def get_count(self, since_seconds: int = None) -> int:
         """Get current counter value.
@@ -148,15 +152,16 @@ class SecondSlotCounter:
                 return the total counter value
 
         """
-        if since_seconds is None:
-            return sum(self._slots.values())
-        count = 0
-        cutoff = int(time.time()) - since_seconds
-        for slot, slot_count in reversed(self._slots.items()):
-            if slot < cutoff:
-                break
-            count += slot_count
-        return count
+        with self._lock:
+            if since_seconds is None:
+                return sum(self._slots.values())
+            count = 0
+            cutoff = int(time.time()) - since_seconds
+            for slot, slot_count in reversed(self._slots.items()):
+                if slot < cutoff:
+                    break
+                count += slot_count
+            return count
 
     def get_counts(self, *since_seconds: int) -> list[int]:
         """Get current counter values.
@@ -178,12 +183,13 @@ class SecondSlotCounter:
         now = int(time.time())
         cutoffs = [now - c for c in sorted(since_seconds)]
         counts = [0] * len(cutoffs)
-        for slot, slot_count in reversed(self._slots.items()):
-            if slot < cutoffs[-1]:
-                break
-            for count_key, cutoff in enumerate(cutoffs):
-                if slot > cutoff:
-                    counts[count_key] += slot_count
+        with self._lock:
+            for slot, slot_count in reversed(self._slots.items()):
+                if slot < cutoffs[-1]:
+                    break
+                for count_key, cutoff in enumerate(cutoffs):
+                    if slot > cutoff:
+                        counts[count_key] += slot_count
         return counts
 
 
